@@ -174,6 +174,7 @@ func password(c *vf.Ctx, n, variant int) []byte {
 func salts(c *vf.Ctx) [][]byte { return c.ValueClasses("salt", 16, c.V()) }
 
 func run(c *vf.Ctx) {
+	c.RaceCompanion("the bcrypt functions", "golang.org/x/crypto/bcrypt.", "golang.org/x/crypto/blowfish.")
 	c.Rule("A: GenerateFromPassword over pwlen 0..72 x 8 value classes x cost{4,5,6} (+cost<4, 7..9, >31; pwlen>72) vs model string; " +
 		"B: CompareHashAndPassword over pwlen 0..80 x value classes x minor{a,b,y} x salt classes x candidates{same, each single byte changed, -1 byte, +1 byte of 5 values, pw|0|pw, tail changes beyond 72, len 255..257} vs 72-byte-cyclic-key oracle (+ model on sub-grid); " +
 		"C: 245 embedded libxcrypt hashes + live libxcrypt when reachable; " +
